@@ -76,6 +76,7 @@ def judge(s, xsd, doc, st, label, tns, faulty_doc=None):
                 'key': '%s|%016x' % (kind, core.h64(xsd + '\0' + doc + str(extra)))}
     res = XMLResource(doc)
     root = res.root
+    xsd_text = open(xsd).read() if (len(xsd) < 300 and os.path.exists(xsd)) else xsd
     pm = {c: p for p in root.iter() for c in p}
     gov = {}
 
@@ -106,13 +107,18 @@ def judge(s, xsd, doc, st, label, tns, faulty_doc=None):
                 # unprefixed steps under a default namespace given in the namespaces map
                 forms['defaultns'] = '/' + '/'.join(c.tag.split('}')[1] for c in chain)
         ambiguous_name = len(decl_by_name.get(e.tag, ())) > 1
+        local = e.tag.split('}')[-1]
+        if e is not root and not ambiguous_name and xsd_text.count('name="%s"' % local) == 1:
+            # descendant form: every element of that name below the root (names declared exactly once in the schema:
+            # otherwise the declaration meant by './/name' is ambiguous)
+            forms['descendant'] = './/' + (e.tag if not (tns and e.tag.startswith('{')) else 'p:' + e.tag.split('}')[1])
         g = gov.get(e)
         for fname, path in forms.items():
             st.case()
             if ambiguous_name:
                 st.nt((xsd, doc, fname, path))
             # (a)
-            if 'pos' not in fname:
+            if 'pos' not in fname and fname != 'descendant':
                 try:
                     found = s.find(path, namespaces={'': tns} if fname == 'defaultns' else ns)
                 except Exception as ex:
@@ -127,7 +133,7 @@ def judge(s, xsd, doc, st, label, tns, faulty_doc=None):
             # (b) partial decoding
             try:
                 part = compare.objects(s, res, path=path, namespaces={'': tns} if fname == 'defaultns' else ns)
-            except xmlschema.XMLSchemaException as ex:
+            except Exception as ex:     # a library error or a crash: the part is valid and selected by the path
                 out.append(rec('partial_decode_raises', 'data of the selected part', type(ex).__name__ + ': ' + str(ex)[:100],
                                {'path': path, 'form': fname}))
                 continue
@@ -135,7 +141,10 @@ def judge(s, xsd, doc, st, label, tns, faulty_doc=None):
                 exp = subtree(full, idx_path(pm, chain))
             else:
                 # without predicates the path may select several nodes: all same-path elements in document order
-                sel = [x for x in root.iter() if [c.tag for c in chain_of(pm, x)] == [c.tag for c in chain]]
+                if fname == 'descendant':
+                    sel = [x for x in root.iter() if x.tag == e.tag and x is not root]
+                else:
+                    sel = [x for x in root.iter() if [c.tag for c in chain_of(pm, x)] == [c.tag for c in chain]]
                 if len(sel) > 1:
                     st.nt((xsd, doc, fname, path, 'multi'))
                 exp = [subtree(full, idx_path(pm, chain_of(pm, x))) for x in sel]
@@ -285,6 +294,15 @@ def judge_idc_part(places, kind, shape, st):
     return out
 
 
+UNDER_XSD = ('<xs:schema xmlns:xs="http://www.w3.org/2001/XMLSchema" xmlns:t="urn:t" targetNamespace="urn:t" '
+             'elementFormDefault="qualified"><xs:element name="my_root"><xs:complexType><xs:sequence><xs:element '
+             'name="my_item" maxOccurs="unbounded"><xs:complexType><xs:sequence><xs:element name="qty_1" type="xs:int"/>'
+             '<xs:element name="_note" type="xs:string" minOccurs="0"/></xs:sequence><xs:attribute name="id" type="xs:int"/>'
+             '</xs:complexType></xs:element><xs:element name="grand-total.v2" type="xs:decimal"/></xs:sequence></xs:complexType>'
+             '</xs:element></xs:schema>')
+UNDER_DOC = ('<p:my_root xmlns:p="urn:t"><p:my_item id="1"><p:qty_1>2</p:qty_1><p:_note>n</p:_note></p:my_item><p:my_item id="2">'
+             '<p:qty_1>3</p:qty_1></p:my_item><p:grand-total.v2>5.0</p:grand-total.v2></p:my_root>')
+UNDER_BAD = UNDER_DOC.replace('>2<', '>x<').replace('id="2"', 'id="y"')
 DEFNS_XSD = ('<schema xmlns="http://www.w3.org/2001/XMLSchema"><element name="order"><complexType><sequence>'
              '<element name="item" maxOccurs="unbounded"><complexType><sequence><element name="qty" type="int"/>'
              '<element name="note" type="string" minOccurs="0"/></sequence><attribute name="id" type="int"/></complexType>'
@@ -313,6 +331,10 @@ def run_shard(desc):
             s = cls(DEFNS_XSD)
             for r in judge(s, DEFNS_XSD, DEFNS_DOC, st, 'default-namespace schema document', '', DEFNS_BAD):
                 core.report(st, PROPERTY, r)
+        # element names with every kind of NCName character (underscore, hyphen, dot, digits)
+        s = xmlschema.XMLSchema10(UNDER_XSD)
+        for r in judge(s, UNDER_XSD, UNDER_DOC, st, 'names with _ - . digits', 'urn:t', UNDER_BAD):
+            core.report(st, PROPERTY, r)
         st.sample({'corpus': ['vehicles', 'collection', 'schema document with xmlns="http://www.w3.org/2001/XMLSchema"']})
         return st
     if desc[0] == 'idcpart':
